@@ -102,6 +102,7 @@ type Content struct {
 	Counter           int
 	SearchState       string
 	Limit             int
+	Cursor            string
 }
 
 var idAlphabet = []string{"a", "B", "9", "-", "_", ".", "/", ":", "é", "日", "%41", "+", "~"}
@@ -133,8 +134,13 @@ func genContent(r *rand.Rand, plain bool) Content {
 		}
 	}
 	c.Timeout = []int64{0, 1, 1 << 31, 1 << 53, 9223372036854775807, 1700000000000}[r.Intn(6)]
-	if r.Intn(2) == 0 {
+	switch r.Intn(6) {
+	case 0, 1, 2:
 		c.Tags = map[string]string{"t": "u", "resonate:invoke": "poll://g/" + fmt.Sprint(r.Intn(9))}
+	case 3:
+		c.Tags = map[string]string{"env": "", "t": "u"} // a tag whose value is the empty string is a tag
+	case 4:
+		c.Tags = map[string]string{"k.0": "a&b=c", "sp ace": "é"} // (no brackets in keys: the tags[key]=value query syntax has no escape for them)
 	}
 	c.State = []promise.State{promise.Resolved, promise.Rejected, promise.Canceled}[r.Intn(3)]
 	if r.Intn(2) == 0 {
@@ -350,6 +356,9 @@ var endpoints = []endpoint{
 		for k, v := range c.Tags {
 			q.Set("tags["+k+"]", v)
 		}
+		if c.Cursor != "" {
+			q.Set("cursor", c.Cursor)
+		}
 		return e.doHTTP("GET", "/promises?"+q.Encode(), nil, nil)
 	}},
 	{"http:GET /promises/*id", "ReadPromise", func(e *env, c Content) reply { return e.doHTTP("GET", "/promises/"+esc(c.Id), nil, nil) }},
@@ -373,6 +382,9 @@ var endpoints = []endpoint{
 		}
 		for k, v := range c.Tags {
 			q.Set("tags["+k+"]", v)
+		}
+		if c.Cursor != "" {
+			q.Set("cursor", c.Cursor)
 		}
 		return e.doHTTP("GET", "/schedules?"+q.Encode(), nil, nil)
 	}},
@@ -411,7 +423,7 @@ var endpoints = []endpoint{
 	}},
 	{"grpc:Promises.SearchPromises", "SearchPromises", func(e *env, c Content) reply {
 		st := map[string]pb.SearchState{"": pb.SearchState_SEARCH_ALL, "pending": pb.SearchState_SEARCH_PENDING, "resolved": pb.SearchState_SEARCH_RESOLVED, "rejected": pb.SearchState_SEARCH_REJECTED}[c.SearchState]
-		return grpcReply(e.pc.SearchPromises(context.Background(), &pb.SearchPromisesRequest{Id: c.Id, State: st, Tags: c.Tags, Limit: int32(c.Limit)}))
+		return grpcReply(e.pc.SearchPromises(context.Background(), &pb.SearchPromisesRequest{Id: c.Id, State: st, Tags: c.Tags, Limit: int32(c.Limit), Cursor: c.Cursor}))
 	}},
 	{"grpc:Promises.CreatePromise", "CreatePromise", func(e *env, c Content) reply {
 		return grpcReply(e.pc.CreatePromise(context.Background(), &pb.CreatePromiseRequest{Id: c.Id, IdempotencyKey: c.Key, Strict: c.Strict, Param: c.pbValue(), Timeout: c.Timeout, Tags: c.Tags}))
@@ -438,7 +450,7 @@ var endpoints = []endpoint{
 		return grpcReply(e.sch.ReadSchedule(context.Background(), &pb.ReadScheduleRequest{Id: c.Id}))
 	}},
 	{"grpc:Schedules.SearchSchedules", "SearchSchedules", func(e *env, c Content) reply {
-		return grpcReply(e.sch.SearchSchedules(context.Background(), &pb.SearchSchedulesRequest{Id: c.Id, Tags: c.Tags, Limit: int32(c.Limit)}))
+		return grpcReply(e.sch.SearchSchedules(context.Background(), &pb.SearchSchedulesRequest{Id: c.Id, Tags: c.Tags, Limit: int32(c.Limit), Cursor: c.Cursor}))
 	}},
 	{"grpc:Schedules.CreateSchedule", "CreateSchedule", func(e *env, c Content) reply {
 		return grpcReply(e.sch.CreateSchedule(context.Background(), &pb.CreateScheduleRequest{Id: c.Id, Description: c.Desc, Cron: c.Cron, Tags: c.Tags, PromiseId: c.PromiseId, PromiseTimeout: c.PromiseTimeout, PromiseParam: c.pbValue(), PromiseTags: c.Tags, IdempotencyKey: c.Key}))
@@ -1053,6 +1065,9 @@ func dropEmpty(v any) any {
 	switch x := v.(type) {
 	case map[string]any:
 		for k, w := range x {
+			if tm, ok := w.(map[string]any); ok && len(tm) > 0 && (k == "tags" || k == "promiseTags" || k == "headers") {
+				continue // a tag or header whose value is the empty string is still there
+			}
 			w = dropEmpty(w)
 			if w == nil {
 				delete(x, k)
@@ -1151,6 +1166,8 @@ func runChild(cases []Case, listf string, from int, resf, curf string, seed int6
 			}
 		} else if c.Mode == "reqid" {
 			res.Problems, res.Sig, res.Observed = runReqId(e, c)
+		} else if c.Mode == "cursor" {
+			res.Problems, res.Sig, res.Observed = runCursor(e, c)
 		} else {
 			res.Problems, res.Sig, res.Observed = runPair(e, c, seed)
 		}
@@ -1163,9 +1180,14 @@ func runChild(cases []Case, listf string, from int, resf, curf string, seed int6
 // runReqId: the request id a client sends is a label, not an identity: two different requests that carry the same
 // request id and overlap in time are two requests, both reach the kernel and each gets its own answer.
 func runReqId(e *env, c Case) (problems, sigs []string, observed string) {
+	lock := c.Kind == "AcquireLock"
 	e.stub.mu.Lock()
 	e.stub.captured = nil
-	e.stub.script = scripted("CreateSubscription", 20100, "response", "full")
+	if lock {
+		e.stub.script = scripted("AcquireLock", 20100, "response", "full")
+	} else {
+		e.stub.script = scripted("CreateSubscription", 20100, "response", "full")
+	}
 	e.stub.delay = 300 * time.Millisecond
 	e.stub.mu.Unlock()
 	defer func() {
@@ -1173,6 +1195,7 @@ func runReqId(e *env, c Case) (problems, sigs []string, observed string) {
 		e.stub.delay = 0
 		e.stub.mu.Unlock()
 	}()
+	http := strings.HasPrefix(c.Endpoint, "reqid:http")
 	var wg sync.WaitGroup
 	for i := 0; i < 2; i++ {
 		i := i
@@ -1180,11 +1203,17 @@ func runReqId(e *env, c Case) (problems, sigs []string, observed string) {
 		go func() {
 			defer wg.Done()
 			id := fmt.Sprintf("sub%d", i)
-			if c.Endpoint == "reqid:http" {
+			ctx, cancel := context.WithTimeout(context.Background(), 10*time.Second)
+			defer cancel()
+			switch {
+			case lock && http:
+				// two executions asking for the same resource
+				e.doHTTP("POST", "/locks/acquire", map[string]string{"request-id": "same-request-id"}, map[string]any{"resourceId": "res", "executionId": id, "processId": "p" + id, "ttl": 60000})
+			case lock:
+				_, _ = e.lc.AcquireLock(ctx, &pb.AcquireLockRequest{ResourceId: "res", ExecutionId: id, ProcessId: "p" + id, Ttl: 60000, RequestId: "same-request-id"})
+			case http:
 				e.doHTTP("POST", "/subscriptions", map[string]string{"request-id": "same-request-id"}, map[string]any{"id": id, "promiseId": "p", "timeout": 1 << 40, "recv": "default"})
-			} else {
-				ctx, cancel := context.WithTimeout(context.Background(), 10*time.Second)
-				defer cancel()
+			default:
 				_, _ = e.sc.CreateSubscription(ctx, &pb.CreateSubscriptionRequest{Id: id, PromiseId: "p", Timeout: 1 << 40, Recv: &pb.Recv{Recv: &pb.Recv_Logical{Logical: "default"}}, RequestId: "same-request-id"})
 			}
 		}()
@@ -1197,14 +1226,71 @@ func runReqId(e *env, c Case) (problems, sigs []string, observed string) {
 		if r.CreateSubscription != nil {
 			ids[r.CreateSubscription.Id] = true
 		}
+		if r.AcquireLock != nil {
+			ids[r.AcquireLock.ExecutionId] = true
+		}
 	}
 	n := len(e.stub.captured)
 	e.stub.mu.Unlock()
 	observed = fmt.Sprintf("%d kernel requests, ids %v", n, ids)
 	if n != 2 || !ids["sub0"] || !ids["sub1"] {
-		problems = append(problems, fmt.Sprintf("two different subscriptions sent with the same request id while the first was in flight: the kernel saw %d request(s) %v", n, ids))
+		what := "two different subscriptions"
+		if lock {
+			what = "acquire requests of two different executions for one resource"
+		}
+		problems = append(problems, fmt.Sprintf("%s sent with the same request id while the first was in flight: the kernel saw %d request(s) %v (the other caller was answered without the kernel deciding its request)", what, n, ids))
 		sigs = append(sigs, "reqid:request-swallowed:"+c.Endpoint)
 	}
+	return
+}
+
+// runCursor: a search that carries a (validly signed) cursor together with other parameters. Whatever reaches the
+// kernel is a well-formed search (the kernel asserts it: an id, at least one state, a page size of 1..100); the
+// signing key is public, so the front ends are the only validation there is.
+func runCursor(e *env, c Case) (problems, sigs []string, observed string) {
+	sid := int64(7)
+	var tok string
+	if c.Kind == "SearchPromises" {
+		tok, _ = (&t_api.Cursor[t_api.SearchPromisesRequest]{Next: &t_api.SearchPromisesRequest{Id: "*", States: []promise.State{promise.Pending}, Tags: map[string]string{}, Limit: 10, SortId: &sid}}).Encode()
+	} else {
+		tok, _ = (&t_api.Cursor[t_api.SearchSchedulesRequest]{Next: &t_api.SearchSchedulesRequest{Id: "*", Tags: map[string]string{}, Limit: 10, SortId: &sid}}).Encode()
+	}
+	limits := []int{0, 1, 5, 100, 101, 1000, -1, -100, 1 << 30}
+	seen := 0
+	for _, ep := range endpoints {
+		if ep.Kind != c.Kind {
+			continue
+		}
+		for _, lim := range limits {
+			e.stub.mu.Lock()
+			e.stub.captured = nil
+			e.stub.script = scripted(c.Kind, 50004, "error", "full")
+			e.stub.mu.Unlock()
+			_ = ep.Send(e, Content{Id: "x*", Limit: lim, Cursor: tok})
+			e.stub.mu.Lock()
+			reqs := append([]*t_api.Request{}, e.stub.captured...)
+			e.stub.mu.Unlock()
+			for _, r := range reqs {
+				seen++
+				bad := ""
+				switch {
+				case r.SearchPromises != nil:
+					if q := r.SearchPromises; q.Id == "" || len(q.States) == 0 || q.Limit < 1 || q.Limit > 100 {
+						bad = fmt.Sprintf("%+v", *q)
+					}
+				case r.SearchSchedules != nil:
+					if q := r.SearchSchedules; q.Id == "" || q.Limit < 1 || q.Limit > 100 {
+						bad = fmt.Sprintf("%+v", *q)
+					}
+				}
+				if bad != "" {
+					problems = append(problems, fmt.Sprintf("%s with a valid cursor and limit=%d: the kernel was asked %s (page size outside 1..100 or no id/state)", ep.Name, lim, bad))
+					sigs = append(sigs, "translate:kernel-request-out-of-range:"+ep.Name)
+				}
+			}
+		}
+	}
+	observed = fmt.Sprintf("%d search requests reached the kernel", seen)
 	return
 }
 
@@ -1282,6 +1368,12 @@ func runPair(e *env, c Case, seed int64) (problems, sigs []string, observed stri
 				gotKey := ""
 				if k != nil {
 					gotKey = string(*k)
+				}
+				if k != nil && cc.Key == "" {
+					// no key was sent: the kernel must be asked without one. An empty key is a key: it would make every later
+					// keyless request of the id "match"
+					problems = append(problems, fmt.Sprintf("%s: no idempotency key was sent, the kernel was asked with the key %q", ep.Name, gotKey))
+					sigs = append(sigs, "translate:idempotency-fields:"+ep.Name)
 				}
 				if gotKey != cc.Key || strict != cc.Strict {
 					problems = append(problems, fmt.Sprintf("%s: sent idempotency key %q strict=%v, the kernel was asked with key %q strict=%v", ep.Name, cc.Key, cc.Strict, gotKey, strict))
